@@ -643,7 +643,12 @@ func (e *Explorer) ConcretiseBV(t *Term, cap int, what string) uint64 {
 		// the decision index encodes the value directly in replay: we stored
 		// the enumerated values in order, so re-enumerate deterministically
 	}
-	vals := e.enumerate(t, cap, what)
+	vals, complete := e.enumerate(t, cap, what)
+	if !complete {
+		// more feasible values than the cap: the first ones are explored (a
+		// violation found this way is real), but the path set is incomplete
+		e.notes = append(e.notes, fmt.Sprintf("partial concretisation of %s: only %d of more feasible values explored", what, len(vals)))
+	}
 	conds := make([]*Term, len(vals))
 	for i, v := range vals {
 		conds[i] = Eq(t, BvConst(v, t.W))
@@ -654,7 +659,7 @@ func (e *Explorer) ConcretiseBV(t *Term, cap int, what string) uint64 {
 
 // enumerate lists feasible values of t, deterministically (ascending order
 // of discovery is not stable across solvers, so values are sorted).
-func (e *Explorer) enumerate(t *Term, cap int, what string) []uint64 {
+func (e *Explorer) enumerate(t *Term, cap int, what string) ([]uint64, bool) {
 	base := e.slice(t)
 	key := queryKey(append(append([]*Term{}, base...), t, BvConst(uint64(cap), 64)))
 	if cv, ok := e.cache[cacheKey{key.a ^ 0x5555, key.b ^ 0xaaaa}]; ok {
@@ -667,10 +672,10 @@ func (e *Explorer) enumerate(t *Term, cap int, what string) []uint64 {
 			}
 			vals = append(vals, v)
 		}
-		if cv.res == Unknown {
-			panic(pathAbort{"unsupported", "concretisation of " + what + ": more than cap feasible values or solver unknown"})
+		if cv.res == Unknown && len(vals) == 0 {
+			panic(pathAbort{"unsupported", "concretisation of " + what + ": solver unknown"})
 		}
-		return vals
+		return vals, cv.res != Unknown
 	}
 	var vals []uint64
 	asserts := append([]*Term{}, base...)
@@ -696,8 +701,12 @@ func (e *Explorer) enumerate(t *Term, cap int, what string) []uint64 {
 			break
 		}
 		vals = append(vals, v)
-		if len(vals) > cap {
-			status = Unknown
+		if len(vals) >= cap {
+			// is there one more?
+			r2, _ := e.check(append(append([]*Term{}, asserts...), Not(Eq(t, BvConst(v, t.W)))))
+			if r2 != Unsat {
+				status = Unknown
+			}
 			break
 		}
 		asserts = append(asserts, Not(Eq(t, BvConst(v, t.W))))
@@ -708,13 +717,13 @@ func (e *Explorer) enumerate(t *Term, cap int, what string) []uint64 {
 		store[fmt.Sprintf("%d", i)] = v
 	}
 	e.cache[cacheKey{key.a ^ 0x5555, key.b ^ 0xaaaa}] = cacheVal{status, store}
-	if status == Unknown {
-		panic(pathAbort{"unsupported", fmt.Sprintf("concretisation of %s: more than %d feasible values or solver unknown", what, cap)})
+	if status == Unknown && len(vals) == 0 {
+		panic(pathAbort{"unsupported", fmt.Sprintf("concretisation of %s: solver unknown", what)})
 	}
 	if len(vals) == 0 {
 		panic(pathAbort{"infeasible", "concretisation: no value"})
 	}
-	return vals
+	return vals, status != Unknown
 }
 
 func (e *Explorer) Note(s string)       { e.notes = append(e.notes, s) }
